@@ -58,7 +58,7 @@ func init() {
 	core.Register(&core.Monitor{
 		ID:   "C24",
 		Race: true,
-		Rule: "inbound engine: histories of 200 API calls from the PRNG (RequestTxIds 76%: blocking 40%, count from {0,1,2,3,7,20,100,1000,4096,32767,32768,65534,65535} or uniform in 0..65535; RequestTxIds with a count outside 0..65535 12%: negative, 65536.., values whose low 16 bits are small; RequestTxs 12%) on a real Server against a raw client that answers each request with a PRNG number of ids (0..10 70%, ..100 25%, ..1000 4%, ..3000 1%; one history in four gets one 3001..20000-id reply, quick case 0 one 32768-id reply, thorough one case in sixteen one 65535/65534-id reply or one 65536..70000-id reply late in the history - each of those costs tens of CPU seconds in the receive path under the race detector -, always to a blocking request; MsgDone to 5% of the blocking requests, followed by a fresh MsgInit). Outbound engine: sessions of 0..40 (one in sixteen: 200) valid MsgRequestTxIds / MsgRequestTxs from a raw server to a real Client, then one terminal event by case index from {ack>65535, req>65535, both, stop sentinel to a blocking request (x2), stop sentinel to a non-blocking request (x2), none}, the sentinel wrapped with %w in a third of them. A case is non-trivial when requests were judged on the wire (inbound: >= 20 MsgRequestTxIds with a positive ack among them; outbound: at least one round or the terminal event); distinct by the hash of the script",
+		Rule: "inbound engine: histories of 200 API calls from the PRNG (RequestTxIds 76%: blocking 40%, count from {0,1,2,3,7,20,100,1000,4096,32767,32768,65534,65535} or uniform in 0..65535; RequestTxIds with a count outside 0..65535 12%: negative, 65536.., values whose low 16 bits are small; RequestTxs 12%) on a real Server against a raw client that answers each request with a PRNG number of ids (0..10 70%, ..100 25%, ..1000 4%, ..3000 1%; one history in four gets one 3001..20000-id reply, quick case 0 one 32768-id reply, thorough one case in sixteen one 65535/65534-id reply or one 65536..70000-id reply late in the history - each of those costs tens of CPU seconds in the receive path under the race detector -, always to a blocking request; MsgDone to 5% of the blocking requests, followed by a fresh MsgInit on the same Server object - a new session whose window starts at 0; in half of the sessions InitFunc is held until the first request of that session is on the wire). Outbound engine: sessions of 0..40 (one in sixteen: 200) valid MsgRequestTxIds / MsgRequestTxs from a raw server to a real Client, then one terminal event by case index from {ack>65535, req>65535, both, stop sentinel to a blocking request (x2), stop sentinel to a non-blocking request (x2), none}, the sentinel wrapped with %w in a third of them. A case is non-trivial when requests were judged on the wire (inbound: >= 20 MsgRequestTxIds with a positive ack among them; outbound: at least one round or the terminal event); distinct by the hash of the script",
 		MinNontrivial: 100,
 		RaceAnchors: []string{
 			"txsubmission.(*Server).RequestTxIds", "txsubmission.(*Server).handleDone",
